@@ -1,6 +1,6 @@
 import RlibModel.Model.Treap
 /-
-The two concrete items the correspondence harness runs (`harness/e_treap/src/items.rs` defines
+The concrete items the correspondence harness runs (`harness/e_treap/src/items.rs` defines
 the same two items in Rust, field by field), as `TItem` instances. Their laws are proved in
 `Lemmas/TreapItems.lean` and are obligations of C03.
 
@@ -85,5 +85,33 @@ def affHash : TItem AffIt Int (Int × Int) (Int × Int) Int where
   inj e := (2, e)
   one := (1, 0)
   mul := hashMul
+
+/-! ### keyOnly -/
+
+/-- An item that relies on the DEFAULT (empty) bodies of `TreapItem::update` and `TreapItem::push`
+    and does not implement `TreapItemSized` (the item of rlib's own `set` test; Rust twin `KeyIt` in
+    `harness/e_treap/src/items.rs` has the single field `x`). `sz` is a ghost field: rlib stores no
+    size for such an item; the harness reports the number of nodes it counts through the public
+    `left`/`right` fields, which is what this ghost size is at every root (`WFt`). -/
+structure KeyIt where
+  x : Int
+  sz : Nat
+  deriving Repr, DecidableEq, Inhabited
+
+def keyOnly : TItem KeyIt Int Unit Unit Int where
+  new v := ⟨v, 1⟩
+  own a := a.x
+  pa _ e := e
+  paG _ g := g
+  sz a := a.sz
+  agg _ := ()
+  update a l r := { a with sz := (l.map (·.sz)).getD 0 + (r.map (·.sz)).getD 0 + 1 }
+  push a l r := (a, l, r)
+  tag _ a := a
+  act _ e := e
+  actG _ g := g
+  inj _ := ()
+  one := ()
+  mul _ _ := ()
 
 end Rlib.Treap
